@@ -12,7 +12,7 @@ Wait-for graph of PriorityTasks and PriorityLocks, and the two mutually recursiv
 
 Python recurses without bound; the model recurses on a fuel parameter.  `Asynkit.C11`
 proves that on acyclic graphs (locks taken in a fixed order) every fuel ≥ the rank of the
-node gives the same value, so the driver's fuel `|tasks| + |locks| + 1` is exact there.
+node gives the same value, so the driver's fuel `2 * (|tasks| + |locks|) + 1` is exact there.
 A task that is not a PriorityTask is a node with `own = 0` and `holding = []` (its
 `add_owned_lock` raises AttributeError, which `_take_lock` ignores).
 
